@@ -1,4 +1,577 @@
-import Ahbicht.Model.Val
+import Ahbicht.Lemmas.ValTables
+/-!
+# C13 — validation covers the AHB tree once, in order; parents dominate children
+-/
 namespace Ahbicht.Properties.C13
-theorem placeholder : True := trivial
+open Ahbicht
+
+
+/-! ## helpers -/
+theorem bind_ok {α β : Type} {x : Except VErr α} {f : α → Except VErr β} {b : β}
+    (h : (x >>= f) = .ok b) : ∃ a, x = .ok a ∧ f a = .ok b := by
+  cases x with
+  | error e => simp [bind, Except.bind] at h
+  | ok a => exact ⟨a, rfl, h⟩
+
+theorem bind_err {α β : Type} {x : Except VErr α} {f : α → Except VErr β} {e : VErr}
+    (h : (x >>= f) = .error e) : x = .error e ∨ ∃ a, x = .ok a ∧ f a = .error e := by
+  cases x with
+  | error e' => left; simpa [bind, Except.bind] using h
+  | ok a => exact .inr ⟨a, rfl, h⟩
+
+theorem liftT_ok {t : TRes} {v : RVV} (h : liftT t = .ok v) : t = .val v := by
+  cases t <;> simp [liftT] at h
+  subst h; rfl
+
+theorem pure_ok {α : Type} {a b : α} (h : (pure a : Except VErr α) = .ok b) : a = b := by
+  simpa [pure, Except.pure] using h
+
+theorem segLevel_forbidden (res : NodeRes) (soll : Bool) :
+    segLevel res (some .IS_FORBIDDEN) soll = .ok (.IS_FORBIDDEN, none) := by
+  simp [segLevel]
+
+theorem segLevel_invalid (msg : String) (p : Option RVV) (soll : Bool) (hp : p ≠ some .IS_FORBIDDEN) :
+    segLevel (.invalid msg) p soll = .ok (.IS_OPTIONAL, some msg) := by
+  simp [segLevel, hp]
+
+theorem segLevel_ok_inv (r : EvalRes) (p : Option RVV) (soll : Bool) (hp : p ≠ some .IS_FORBIDDEN) (st : RVV)
+    (hh : Option String) (h : segLevel (.ok r) p soll = .ok (st, hh)) :
+    ∃ own, mapOwn r.fulfilled r.ind soll = .val own ∧ combine p own = .val st ∧ hh = r.hints := by
+  unfold segLevel at h
+  rw [if_neg hp] at h
+  obtain ⟨own, h1, h2⟩ := bind_ok h
+  obtain ⟨st', h3, h4⟩ := bind_ok h2
+  have h5 := pure_ok h4
+  injection h5 with h6 h7
+  subst h6; subst h7
+  exact ⟨own, liftT_ok h1, liftT_ok h3, rfl⟩
+
+/-! ## document order -/
+def discDE : DataElement → String
+  | .free d _ _ _ => d
+  | .pool d _ _ => d
+
+def discsSeg (s : Segment) : List String := s.disc :: s.des.map discDE
+
+mutual
+/-- a group, then its sub-groups, then its segments each followed by its data elements -/
+def discsGroup : Group → List String
+  | .mk d _ gs ss => d :: (discsGroups gs ++ ss.flatMap discsSeg)
+def discsGroups : Groups → List String
+  | .nil => []
+  | .cons g gs => discsGroup g ++ discsGroups gs
+end
+
+
+/-! ## inversion lemmas -/
+theorem mapM_cons_ok {α β : Type} {f : α → Except VErr β} {a : α} {l : List α} {outs : List β}
+    (h : (a :: l).mapM f = .ok outs) : ∃ b bs, f a = .ok b ∧ l.mapM f = .ok bs ∧ outs = b :: bs := by
+  rw [List.mapM_cons] at h
+  obtain ⟨b, h1, h2⟩ := bind_ok h
+  obtain ⟨bs, h3, h4⟩ := bind_ok h2
+  exact ⟨b, bs, h1, h3, (pure_ok h4).symm⟩
+
+theorem mapM_nil_ok {α β : Type} {f : α → Except VErr β} {outs : List β}
+    (h : ([] : List α).mapM f = .ok outs) : outs = [] := by
+  rw [List.mapM_nil] at h
+  exact (pure_ok h).symm
+
+theorem mapM_err {α β : Type} {f : α → Except VErr β} {e : VErr} :
+    ∀ (l : List α), l.mapM f = .error e → ∃ a, a ∈ l ∧ f a = .error e
+  | [], h => by rw [List.mapM_nil] at h; simp [pure, Except.pure] at h
+  | a :: l, h => by
+    rw [List.mapM_cons] at h
+    rcases bind_err h with h1 | ⟨b, _, h2⟩
+    · exact ⟨a, List.mem_cons_self, h1⟩
+    · rcases bind_err h2 with h3 | ⟨bs, _, h4⟩
+      · obtain ⟨x, hx, hfx⟩ := mapM_err l h3
+        exact ⟨x, List.mem_cons_of_mem _ hx, hfx⟩
+      · simp [pure, Except.pure] at h4
+
+theorem validateSegment_inv (s : Segment) (p : Option RVV) (soll : Bool) (outs : List Out)
+    (h : validateSegment s p soll = .ok outs) :
+    ∃ st hh, segLevel s.res p soll = .ok (st, hh) ∧
+      ((st = .IS_FORBIDDEN ∧ outs = [segOut s.disc st hh]) ∨
+       (st ≠ .IS_FORBIDDEN ∧ ∃ des, s.des.mapM (fun de => validateDataElement de st soll) = .ok des ∧
+          outs = segOut s.disc st hh :: des)) := by
+  unfold validateSegment at h
+  obtain ⟨⟨st, hh⟩, h1, h2⟩ := bind_ok h
+  refine ⟨st, hh, h1, ?_⟩
+  dsimp only at h2
+  by_cases hf : st = .IS_FORBIDDEN
+  · left
+    rw [if_pos hf] at h2
+    obtain ⟨des, h3, h4⟩ := bind_ok h2
+    have := pure_ok h3
+    subst this
+    exact ⟨hf, (pure_ok h4).symm⟩
+  · right
+    rw [if_neg hf] at h2
+    obtain ⟨des, h3, h4⟩ := bind_ok h2
+    exact ⟨hf, des, h3, (pure_ok h4).symm⟩
+
+theorem validateGroup_inv (d : String) (res : NodeRes) (gs : Groups) (ss : List Segment) (p : Option RVV) (soll : Bool)
+    (outs : List Out) (h : validateGroup (.mk d res gs ss) p soll = .ok outs) :
+    ∃ st hh, segLevel res p soll = .ok (st, hh) ∧
+      ((st = .IS_FORBIDDEN ∧ outs = [segOut d st hh]) ∨
+       (st ≠ .IS_FORBIDDEN ∧ ∃ a b, validateGroups gs (some st) soll = .ok a ∧
+          ss.mapM (fun s => validateSegment s (some st) soll) = .ok b ∧ outs = segOut d st hh :: (a ++ b.flatten))) := by
+  rw [validateGroup] at h
+  obtain ⟨⟨st, hh⟩, h1, h2⟩ := bind_ok h
+  refine ⟨st, hh, h1, ?_⟩
+  dsimp only at h2
+  by_cases hf : st = .IS_FORBIDDEN
+  · left
+    rw [if_pos hf] at h2
+    exact ⟨hf, (pure_ok h2).symm⟩
+  · right
+    rw [if_neg hf] at h2
+    obtain ⟨a, h3, h4⟩ := bind_ok h2
+    obtain ⟨b, h5, h6⟩ := bind_ok h4
+    exact ⟨hf, a, b, h3, h5, (pure_ok h6).symm⟩
+
+theorem validateGroups_cons_inv (g : Group) (rest : Groups) (p : Option RVV) (soll : Bool) (outs : List Out)
+    (h : validateGroups (.cons g rest) p soll = .ok outs) :
+    ∃ a b, validateGroup g p soll = .ok a ∧ validateGroups rest p soll = .ok b ∧ outs = a ++ b := by
+  rw [validateGroups] at h
+  obtain ⟨a, h1, h2⟩ := bind_ok h
+  obtain ⟨b, h3, h4⟩ := bind_ok h2
+  exact ⟨a, b, h1, h3, (pure_ok h4).symm⟩
+
+theorem validateGroups_nil_inv (p : Option RVV) (soll : Bool) (outs : List Out)
+    (h : validateGroups .nil p soll = .ok outs) : outs = [] := by
+  rw [validateGroups] at h
+  exact (pure_ok h).symm
+
+theorem validatePool_inv (d : String) (entries : List PoolEntry) (input : Option String) (st : RVV) (soll : Bool) (o : Out)
+    (h : validateDataElement (.pool d entries input) st soll = .ok o) : o.disc = d ∧ o.dtype = some "VALUE_POOL" := by
+  unfold validateDataElement at h
+  dsimp only at h
+  repeat' (split at h)
+  all_goals (injection h with h; subst h; exact ⟨rfl, rfl⟩)
+
+theorem validateDE_disc (de : DataElement) (st : RVV) (soll : Bool) (o : Out)
+    (h : validateDataElement de st soll = .ok o) : o.disc = discDE de := by
+  cases de with
+  | pool d entries input => exact (validatePool_inv d entries input st soll o h).1
+  | free d res input vtype =>
+    cases res with
+    | invalid msg =>
+      unfold validateDataElement at h
+      injection h with h; subst h; rfl
+    | ok r =>
+      unfold validateDataElement at h
+      dsimp only at h
+      obtain ⟨own, _, h2⟩ := bind_ok h
+      obtain ⟨base, _, h4⟩ := bind_ok h2
+      obtain ⟨st', _, h6⟩ := bind_ok h4
+      have h7 := pure_ok h6
+      subst h7; rfl
+
+theorem mapM_DE_disc (st : RVV) (soll : Bool) : ∀ (des : List DataElement) (outs : List Out),
+    des.mapM (fun de => validateDataElement de st soll) = .ok outs → outs.map (·.disc) = des.map discDE
+  | [], outs, h => by rw [mapM_nil_ok h]; rfl
+  | de :: des, outs, h => by
+    obtain ⟨b, bs, h1, h2, h3⟩ := mapM_cons_ok h
+    subst h3
+    simp only [List.map_cons]
+    rw [validateDE_disc de st soll b h1, mapM_DE_disc st soll des bs h2]
+
+/-! ## coverage -/
+/-- reported discriminators are a sub-sequence of the document order, and all of it when no segment-level node is forbidden -/
+def Cov (outs : List Out) (doc : List String) : Prop :=
+  (outs.map (·.disc)).Sublist doc ∧
+    ((∀ o ∈ outs, o.isDataElement = false → o.status ≠ .IS_FORBIDDEN) → outs.map (·.disc) = doc)
+
+theorem Cov_nil : Cov [] [] := ⟨List.Sublist.refl _, fun _ => rfl⟩
+
+theorem Cov_append {a b : List Out} {da db : List String} (ha : Cov a da) (hb : Cov b db) : Cov (a ++ b) (da ++ db) := by
+  refine ⟨?_, ?_⟩
+  · rw [List.map_append]; exact List.Sublist.append ha.1 hb.1
+  · intro h
+    rw [List.map_append, ha.2 (fun o ho => h o (List.mem_append_left _ ho)),
+      hb.2 (fun o ho => h o (List.mem_append_right _ ho))]
+
+theorem Cov_cons {a : List Out} {da : List String} (o : Out) (ha : Cov a da) : Cov (o :: a) (o.disc :: da) := by
+  refine ⟨?_, ?_⟩
+  · rw [List.map_cons]; exact List.Sublist.cons_cons _ ha.1
+  · intro h
+    rw [List.map_cons, ha.2 (fun x hx => h x (List.mem_cons_of_mem _ hx))]
+
+theorem Cov_forbidden (d : String) (hh : Option String) (doc : List String) :
+    Cov [segOut d .IS_FORBIDDEN hh] (d :: doc) := by
+  refine ⟨?_, ?_⟩
+  · exact List.Sublist.cons_cons _ (List.nil_sublist _)
+  · intro h
+    exact absurd rfl (h _ List.mem_cons_self rfl)
+
+theorem Cov_of_eq {outs : List Out} {doc : List String} (h : outs.map (·.disc) = doc) : Cov outs doc :=
+  ⟨h ▸ List.Sublist.refl _, fun _ => h⟩
+
+theorem Cov_segment (s : Segment) (p : Option RVV) (soll : Bool) (outs : List Out)
+    (h : validateSegment s p soll = .ok outs) : Cov outs (discsSeg s) := by
+  obtain ⟨st, hh, _, h2⟩ := validateSegment_inv s p soll outs h
+  rcases h2 with ⟨hf, ho⟩ | ⟨_, des, hd, ho⟩
+  · subst hf; subst ho; exact Cov_forbidden _ _ _
+  · subst ho
+    exact Cov_cons (segOut s.disc st hh) (Cov_of_eq (mapM_DE_disc st soll s.des des hd))
+
+theorem Cov_segments (p : Option RVV) (soll : Bool) : ∀ (ss : List Segment) (b : List (List Out)),
+    ss.mapM (fun s => validateSegment s p soll) = .ok b → Cov b.flatten (ss.flatMap discsSeg)
+  | [], b, h => by rw [mapM_nil_ok h]; exact Cov_nil
+  | s :: ss, b, h => by
+    obtain ⟨x, xs, h1, h2, h3⟩ := mapM_cons_ok h
+    subst h3
+    rw [List.flatten_cons, List.flatMap_cons]
+    exact Cov_append (Cov_segment s p soll x h1) (Cov_segments p soll ss xs h2)
+
+mutual
+theorem Cov_group : ∀ (g : Group) (p : Option RVV) (soll : Bool) (outs : List Out),
+    validateGroup g p soll = .ok outs → Cov outs (discsGroup g)
+  | .mk d res gs ss, p, soll, outs, h => by
+    obtain ⟨st, hh, _, h2⟩ := validateGroup_inv d res gs ss p soll outs h
+    rw [discsGroup]
+    rcases h2 with ⟨hf, ho⟩ | ⟨_, a, b, ha, hb, ho⟩
+    · subst hf; subst ho; exact Cov_forbidden _ _ _
+    · subst ho
+      exact Cov_cons (segOut d st hh) (Cov_append (Cov_groups gs (some st) soll a ha) (Cov_segments (some st) soll ss b hb))
+theorem Cov_groups : ∀ (gs : Groups) (p : Option RVV) (soll : Bool) (outs : List Out),
+    validateGroups gs p soll = .ok outs → Cov outs (discsGroups gs)
+  | .nil, p, soll, outs, h => by
+    rw [validateGroups_nil_inv p soll outs h, discsGroups]; exact Cov_nil
+  | .cons g rest, p, soll, outs, h => by
+    obtain ⟨a, b, ha, hb, ho⟩ := validateGroups_cons_inv g rest p soll outs h
+    subst ho
+    rw [discsGroups]
+    exact Cov_append (Cov_group g p soll a ha) (Cov_groups rest p soll b hb)
+end
+
+/-- **C13 (order, at most once).** What is reported is a sub-sequence of the document order. (With pairwise different
+discriminators this is "every reported node exactly once, in document order".) -/
+theorem C13_order (gs : Groups) (p : Option RVV) (soll : Bool) (outs : List Out)
+    (h : validateGroups gs p soll = .ok outs) : (outs.map (·.disc)).Sublist (discsGroups gs) := by
+  exact (Cov_groups gs p soll outs h).1
+
+/-- **C13 (nothing missing).** If no segment-level node is reported forbidden, every node of the tree is reported. -/
+theorem C13_complete (gs : Groups) (p : Option RVV) (soll : Bool) (outs : List Out)
+    (h : validateGroups gs p soll = .ok outs)
+    (hnf : ∀ o ∈ outs, o.isDataElement = false → o.status ≠ .IS_FORBIDDEN) : outs.map (·.disc) = discsGroups gs := by
+  exact (Cov_groups gs p soll outs h).2 hnf
+
+/-- **C13 (pruning).** Nothing below a forbidden group or segment is reported. -/
+theorem C13_pruned_group (d : String) (res : NodeRes) (gs : Groups) (ss : List Segment) (p : Option RVV) (soll : Bool)
+    (outs : List Out) (h : validateGroup (.mk d res gs ss) p soll = .ok outs) :
+    ∃ st hh, outs.head? = some (segOut d st hh) ∧ (st = .IS_FORBIDDEN → outs = [segOut d st hh]) := by
+  obtain ⟨st, hh, _, h2⟩ := validateGroup_inv d res gs ss p soll outs h
+  refine ⟨st, hh, ?_, ?_⟩
+  · rcases h2 with ⟨_, ho⟩ | ⟨_, a, b, _, _, ho⟩ <;> subst ho <;> rfl
+  · intro hf
+    rcases h2 with ⟨_, ho⟩ | ⟨hnf, _⟩
+    · exact ho
+    · exact absurd hf hnf
+
+theorem C13_pruned_segment (s : Segment) (p : Option RVV) (soll : Bool) (outs : List Out)
+    (h : validateSegment s p soll = .ok outs) :
+    ∃ st hh, outs.head? = some (segOut s.disc st hh) ∧ (st = .IS_FORBIDDEN → outs = [segOut s.disc st hh]) ∧
+      (st ≠ .IS_FORBIDDEN → outs.length = s.des.length + 1) := by
+  obtain ⟨st, hh, _, h2⟩ := validateSegment_inv s p soll outs h
+  refine ⟨st, hh, ?_, ?_, ?_⟩
+  · rcases h2 with ⟨_, ho⟩ | ⟨_, des, _, ho⟩ <;> subst ho <;> rfl
+  · intro hf
+    rcases h2 with ⟨_, ho⟩ | ⟨hnf, _⟩
+    · exact ho
+    · exact absurd hf hnf
+  · intro hnf
+    rcases h2 with ⟨hf, _⟩ | ⟨_, des, hd, ho⟩
+    · exact absurd hf hnf
+    · subst ho
+      have := congrArg List.length (mapM_DE_disc st soll s.des des hd)
+      simp only [List.length_map] at this
+      simp only [List.length_cons, this]
+
+/-! ## status = own status (indicator × outcome) combined with the parent's status -/
+/-- **C13 (status of groups and segments).** -/
+theorem C13_status (r : EvalRes) (p : Option RVV) (soll : Bool) (hp : p ≠ some .IS_FORBIDDEN) (st : RVV) (hh : Option String)
+    (h : segLevel (.ok r) p soll = .ok (st, hh)) :
+    ∃ own, mapSpec r.fulfilled r.ind soll = .val own ∧ combineSpec p own = .val st ∧ hh = r.hints := by
+  obtain ⟨own, h1, h2, h3⟩ := segLevel_ok_inv r p soll hp st hh h
+  exact ⟨own, by rw [← mapOwn_eq_spec]; exact h1, by rw [← combine_eq_spec]; exact h2, h3⟩
+
+/-- **C13 (status of free text).** own status combined with the segment's, plus the FILLED / EMPTY suffix matching the entered input -/
+theorem C13_status_freetext (d : String) (r : EvalRes) (input vtype : Option String) (segSt : RVV) (soll : Bool) (o : Out)
+    (h : validateDataElement (.free d (.ok r) input vtype) segSt soll = .ok o) :
+    ∃ own base, mapSpec r.fulfilled r.ind soll = .val own ∧ combineSpec (some segSt) own = .val base ∧
+      withSuffix base (truthyStr input) = .val o.status ∧ o.hints = r.hints ∧ o.fcOk = some r.fcOk ∧ o.fcMsg = r.fcMsg := by
+  unfold validateDataElement at h
+  simp only at h
+  obtain ⟨own, h1, h2⟩ := bind_ok h
+  obtain ⟨base, h3, h4⟩ := bind_ok h2
+  obtain ⟨st', h5, h6⟩ := bind_ok h4
+  have h7 := pure_ok h6
+  subst h7
+  exact ⟨own, base, by rw [← mapOwn_eq_spec]; exact liftT_ok h1, by rw [← combine_eq_spec]; exact liftT_ok h3,
+    liftT_ok h5, rfl, rfl, rfl⟩
+
+/-- the suffix table is what its name says -/
+theorem C13_suffix :
+    withSuffix .IS_REQUIRED true = .val .IS_REQUIRED_AND_FILLED ∧ withSuffix .IS_REQUIRED false = .val .IS_REQUIRED_AND_EMPTY ∧
+    withSuffix .IS_OPTIONAL true = .val .IS_OPTIONAL_AND_FILLED ∧ withSuffix .IS_OPTIONAL false = .val .IS_OPTIONAL_AND_EMPTY ∧
+    withSuffix .IS_FORBIDDEN true = .val .IS_FORBIDDEN_AND_FILLED ∧ withSuffix .IS_FORBIDDEN false = .val .IS_FORBIDDEN_AND_EMPTY := by
+  decide
+
+/-! ## dominance -/
+def RVV.isRequiredFamily : RVV → Bool
+  | .IS_REQUIRED | .IS_REQUIRED_AND_EMPTY | .IS_REQUIRED_AND_FILLED => true
+  | _ => false
+
+
+/-- nothing (apart from value pools) is reported required -/
+def NoReq (outs : List Out) : Prop :=
+  ∀ o ∈ outs, o.dtype ≠ some "VALUE_POOL" → RVV.isRequiredFamily o.status = false
+
+theorem NoReq_nil : NoReq [] := fun _ ho => nomatch ho
+
+theorem NoReq_append {a b : List Out} (ha : NoReq a) (hb : NoReq b) : NoReq (a ++ b) := by
+  intro o ho
+  rcases List.mem_append.1 ho with h | h
+  · exact ha o h
+  · exact hb o h
+
+theorem NoReq_cons {o : Out} {a : List Out} (ho : RVV.isRequiredFamily o.status = false) (ha : NoReq a) : NoReq (o :: a) := by
+  intro x hx
+  rcases List.mem_cons.1 hx with h | h
+  · subst h; exact fun _ => ho
+  · exact ha x h
+
+theorem combine_optional : ∀ (own st : RVV), own.isBase = true → combine (some .IS_OPTIONAL) own = .val st →
+    st = .IS_OPTIONAL ∨ st = .IS_FORBIDDEN := by decide
+
+theorem suffix_optional : ∀ (b st : RVV) (f : Bool), (b = .IS_OPTIONAL ∨ b = .IS_FORBIDDEN) → withSuffix b f = .val st →
+    RVV.isRequiredFamily st = false := by decide
+
+theorem segLevel_optional (res : NodeRes) (soll : Bool) (st : RVV) (hh : Option String)
+    (h : segLevel res (some .IS_OPTIONAL) soll = .ok (st, hh)) : st = .IS_OPTIONAL ∨ st = .IS_FORBIDDEN := by
+  cases res with
+  | invalid msg =>
+    rw [segLevel_invalid msg _ soll (by decide)] at h
+    injection h with h; injection h with h1 h2
+    exact .inl h1.symm
+  | ok r =>
+    obtain ⟨own, h1, h2, _⟩ := segLevel_ok_inv r _ soll (by decide) st hh h
+    exact combine_optional own st (mapOwn_base _ _ _ _ h1) h2
+
+theorem validateDE_optional (de : DataElement) (soll : Bool) (o : Out)
+    (h : validateDataElement de .IS_OPTIONAL soll = .ok o) (hd : o.dtype ≠ some "VALUE_POOL") :
+    RVV.isRequiredFamily o.status = false := by
+  cases de with
+  | pool d entries input => exact absurd (validatePool_inv d entries input _ soll o h).2 hd
+  | free d res input vtype =>
+    cases res with
+    | invalid msg =>
+      unfold validateDataElement at h
+      injection h with h; subst h; rfl
+    | ok r =>
+      unfold validateDataElement at h
+      dsimp only at h
+      obtain ⟨own, h1, h2⟩ := bind_ok h
+      obtain ⟨base, h3, h4⟩ := bind_ok h2
+      obtain ⟨st', h5, h6⟩ := bind_ok h4
+      have h7 := pure_ok h6
+      subst h7
+      exact suffix_optional base st' _ (combine_optional own base (mapOwn_base _ _ _ _ (liftT_ok h1)) (liftT_ok h3)) (liftT_ok h5)
+
+theorem NoReq_DEs (soll : Bool) : ∀ (des : List DataElement) (outs : List Out),
+    des.mapM (fun de => validateDataElement de .IS_OPTIONAL soll) = .ok outs → NoReq outs
+  | [], outs, h => by rw [mapM_nil_ok h]; exact NoReq_nil
+  | de :: des, outs, h => by
+    obtain ⟨b, bs, h1, h2, h3⟩ := mapM_cons_ok h
+    subst h3
+    intro x hx
+    rcases List.mem_cons.1 hx with hx | hx
+    · subst hx; exact validateDE_optional de soll x h1
+    · exact NoReq_DEs soll des bs h2 x hx
+
+theorem segOut_noReq (d : String) (st : RVV) (hh : Option String) (h : st = .IS_OPTIONAL ∨ st = .IS_FORBIDDEN) :
+    RVV.isRequiredFamily (segOut d st hh).status = false := by
+  rcases h with h | h <;> subst h <;> rfl
+
+theorem NoReq_segment (s : Segment) (soll : Bool) (outs : List Out)
+    (h : validateSegment s (some .IS_OPTIONAL) soll = .ok outs) : NoReq outs := by
+  obtain ⟨st, hh, h1, h2⟩ := validateSegment_inv s _ soll outs h
+  have hst := segLevel_optional s.res soll st hh h1
+  rcases h2 with ⟨_, ho⟩ | ⟨hnf, des, hd, ho⟩
+  · subst ho; exact NoReq_cons (segOut_noReq _ _ _ hst) NoReq_nil
+  · subst ho
+    have : st = .IS_OPTIONAL := hst.resolve_right hnf
+    subst this
+    exact NoReq_cons (segOut_noReq _ _ _ hst) (NoReq_DEs soll s.des des hd)
+
+theorem NoReq_segments (soll : Bool) : ∀ (ss : List Segment) (b : List (List Out)),
+    ss.mapM (fun s => validateSegment s (some .IS_OPTIONAL) soll) = .ok b → NoReq b.flatten
+  | [], b, h => by rw [mapM_nil_ok h]; exact NoReq_nil
+  | s :: ss, b, h => by
+    obtain ⟨x, xs, h1, h2, h3⟩ := mapM_cons_ok h
+    subst h3
+    rw [List.flatten_cons]
+    exact NoReq_append (NoReq_segment s soll x h1) (NoReq_segments soll ss xs h2)
+
+mutual
+theorem NoReq_group : ∀ (g : Group) (soll : Bool) (outs : List Out),
+    validateGroup g (some .IS_OPTIONAL) soll = .ok outs → NoReq outs
+  | .mk d res gs ss, soll, outs, h => by
+    obtain ⟨st, hh, h1, h2⟩ := validateGroup_inv d res gs ss _ soll outs h
+    have hst := segLevel_optional res soll st hh h1
+    rcases h2 with ⟨_, ho⟩ | ⟨hnf, a, b, ha, hb, ho⟩
+    · subst ho; exact NoReq_cons (segOut_noReq _ _ _ hst) NoReq_nil
+    · subst ho
+      have : st = .IS_OPTIONAL := hst.resolve_right hnf
+      subst this
+      exact NoReq_cons (segOut_noReq _ _ _ hst) (NoReq_append (NoReq_groups gs soll a ha) (NoReq_segments soll ss b hb))
+theorem NoReq_groups : ∀ (gs : Groups) (soll : Bool) (outs : List Out),
+    validateGroups gs (some .IS_OPTIONAL) soll = .ok outs → NoReq outs
+  | .nil, soll, outs, h => by
+    rw [validateGroups_nil_inv _ soll outs h]; exact NoReq_nil
+  | .cons g rest, soll, outs, h => by
+    obtain ⟨a, b, ha, hb, ho⟩ := validateGroups_cons_inv g rest _ soll outs h
+    subst ho
+    exact NoReq_append (NoReq_group g soll a ha) (NoReq_groups rest soll b hb)
+end
+
+/-- **C13 (below an optional node nothing is reported required)** — at any depth; value-pool elements are excluded (they are
+always reported `IS_REQUIRED_AND_…` once something is offered). -/
+theorem C13_dominate_optional (gs : Groups) (soll : Bool) (outs : List Out)
+    (h : validateGroups gs (some .IS_OPTIONAL) soll = .ok outs) :
+    ∀ o ∈ outs, o.dtype ≠ some "VALUE_POOL" → RVV.isRequiredFamily o.status = false := by
+  exact NoReq_groups gs soll outs h
+
+/-- **C13 (below a required node the own status is kept).** -/
+theorem C13_dominate_required (r : EvalRes) (soll : Bool) (st : RVV) (hh : Option String)
+    (h : segLevel (.ok r) (some .IS_REQUIRED) soll = .ok (st, hh)) : mapSpec r.fulfilled r.ind soll = .val st := by
+  obtain ⟨own, h1, h2, _⟩ := segLevel_ok_inv r (some .IS_REQUIRED) soll (by decide) st hh h
+  rw [combine_eq_spec] at h2
+  simp only [combineSpec] at h2
+  injection h2 with h2
+  subst h2
+  rw [← mapOwn_eq_spec]; exact h1
+
+/-! ## the documented abort -/
+
+theorem liftT_mapOwn_err (f : Option Bool) (i : Ind) (s : Bool) (e : VErr)
+    (h : liftT (mapOwn f i s) = .error e) : e = .notImplemented := by
+  have hm := mapOwn_err f i s
+  cases hv : mapOwn f i s with
+  | val v => rw [hv] at h; simp [liftT] at h
+  | notImplemented => rw [hv] at h; simp [liftT] at h; exact h.symm
+  | valueError => exact absurd hv hm.1
+  | other => exact absurd hv hm.2
+
+theorem liftT_val (v : RVV) : liftT (.val v) = .ok v := rfl
+
+theorem segLevel_err (res : NodeRes) (p : Option RVV) (soll : Bool) (e : VErr) (hp : okParent p = true)
+    (h : segLevel res p soll = .error e) : e = .notImplemented := by
+  by_cases hf : p = some .IS_FORBIDDEN
+  · subst hf; rw [segLevel_forbidden] at h; cases h
+  · cases res with
+    | invalid msg => rw [segLevel_invalid msg p soll hf] at h; cases h
+    | ok r =>
+      unfold segLevel at h
+      rw [if_neg hf] at h
+      dsimp only at h
+      rcases bind_err h with h1 | ⟨own, h1, h2⟩
+      · exact liftT_mapOwn_err _ _ _ _ h1
+      · obtain ⟨v, hv, _⟩ := combine_base p own hp hf (mapOwn_base _ _ _ _ (liftT_ok h1))
+        rw [hv, liftT_val] at h2
+        cases h2
+
+theorem segLevel_base (res : NodeRes) (p : Option RVV) (soll : Bool) (st : RVV) (hh : Option String)
+    (hp : okParent p = true) (h : segLevel res p soll = .ok (st, hh)) : st.isBase = true := by
+  by_cases hf : p = some .IS_FORBIDDEN
+  · subst hf; rw [segLevel_forbidden] at h
+    injection h with h; injection h with h1 h2; subst h1; rfl
+  · cases res with
+    | invalid msg =>
+      rw [segLevel_invalid msg p soll hf] at h
+      injection h with h; injection h with h1 h2; subst h1; rfl
+    | ok r =>
+      obtain ⟨own, h1, h2, _⟩ := segLevel_ok_inv r p soll hf st hh h
+      obtain ⟨v, hv, hb⟩ := combine_base p own hp hf (mapOwn_base _ _ _ _ h1)
+      rw [hv] at h2
+      injection h2 with h2; subst h2; exact hb
+
+theorem validateDE_err (de : DataElement) (st : RVV) (soll : Bool) (e : VErr) (hb : st.isBase = true)
+    (hf : st ≠ .IS_FORBIDDEN) (h : validateDataElement de st soll = .error e) : e = .notImplemented := by
+  cases de with
+  | pool d entries input =>
+    unfold validateDataElement at h
+    dsimp only at h
+    repeat' (split at h)
+    all_goals cases h
+  | free d res input vtype =>
+    cases res with
+    | invalid msg => unfold validateDataElement at h; cases h
+    | ok r =>
+      unfold validateDataElement at h
+      dsimp only at h
+      rcases bind_err h with h1 | ⟨own, h1, h2⟩
+      · exact liftT_mapOwn_err _ _ _ _ h1
+      · have hne : some st ≠ some RVV.IS_FORBIDDEN := fun hc => hf (Option.some.inj hc)
+        obtain ⟨v, hv, hvb⟩ := combine_base (some st) own hb hne (mapOwn_base _ _ _ _ (liftT_ok h1))
+        rw [hv, liftT_val] at h2
+        obtain ⟨w, hw⟩ := suffix_base v (truthyStr input) hvb
+        rcases bind_err h2 with h3 | ⟨v', h3, h4⟩
+        · cases h3
+        · injection h3 with h3; subst h3
+          rw [hw, liftT_val] at h4
+          cases h4
+
+theorem validateSegment_err (s : Segment) (p : Option RVV) (soll : Bool) (e : VErr) (hp : okParent p = true)
+    (h : validateSegment s p soll = .error e) : e = .notImplemented := by
+  unfold validateSegment at h
+  rcases bind_err h with h1 | ⟨⟨st, hh⟩, h1, h2⟩
+  · exact segLevel_err _ _ _ _ hp h1
+  · dsimp only at h2
+    have hb := segLevel_base _ _ _ _ _ hp h1
+    by_cases hf : st = .IS_FORBIDDEN
+    · rw [if_pos hf] at h2; cases h2
+    · rw [if_neg hf] at h2
+      rcases bind_err h2 with h3 | ⟨des, _, h4⟩
+      · obtain ⟨de, _, hde⟩ := mapM_err _ h3
+        exact validateDE_err de st soll e hb hf hde
+      · cases h4
+
+mutual
+theorem validateGroup_err : ∀ (g : Group) (p : Option RVV) (soll : Bool) (e : VErr), okParent p = true →
+    validateGroup g p soll = .error e → e = .notImplemented
+  | .mk d res gs ss, p, soll, e, hp, h => by
+    rw [validateGroup] at h
+    rcases bind_err h with h1 | ⟨⟨st, hh⟩, h1, h2⟩
+    · exact segLevel_err _ _ _ _ hp h1
+    · dsimp only at h2
+      have hb : okParent (some st) = true := segLevel_base _ _ _ _ _ hp h1
+      by_cases hf : st = .IS_FORBIDDEN
+      · rw [if_pos hf] at h2; cases h2
+      · rw [if_neg hf] at h2
+        rcases bind_err h2 with h3 | ⟨a, _, h4⟩
+        · exact validateGroups_err gs (some st) soll e hb h3
+        · rcases bind_err h4 with h5 | ⟨b, _, h6⟩
+          · obtain ⟨s, _, hs⟩ := mapM_err _ h5
+            exact validateSegment_err s (some st) soll e hb hs
+          · cases h6
+theorem validateGroups_err : ∀ (gs : Groups) (p : Option RVV) (soll : Bool) (e : VErr), okParent p = true →
+    validateGroups gs p soll = .error e → e = .notImplemented
+  | .nil, p, soll, e, hp, h => by rw [validateGroups] at h; cases h
+  | .cons g rest, p, soll, e, hp, h => by
+    rw [validateGroups] at h
+    rcases bind_err h with h1 | ⟨a, _, h2⟩
+    · exact validateGroup_err g p soll e hp h1
+    · rcases bind_err h2 with h3 | ⟨b, _, h4⟩
+      · exact validateGroups_err rest p soll e hp h3
+      · cases h4
+end
+
+/-- the only way validation of a whole AHB fails is the documented `NotImplementedError` (undetermined outcome under MUSS / prefix operator) -/
+theorem C13_only_not_implemented (lines : Groups) (soll : Bool) (e : VErr) (h : validateAhb lines soll = .error e) :
+    e = .notImplemented := by
+  exact validateGroups_err lines none soll e rfl h
+
 end Ahbicht.Properties.C13
